@@ -10,6 +10,9 @@ SPEC = {
         {"pkg": "internal/system", "test": "TestVerifC10dialReal", "newgo": False, "timeout": 120, "arch386": []},
                 # real parallelism: send workers against the scheduler's stop (nothing in flight, nothing starts after it)
                 {"pkg": "internal/corerad", "test": "TestVerifParallel", "newgo": True, "timeout": 600, "arch386": [], "env": {"VERIF_PAR": "workers"}},
+                # the wiring that makes a link change reach the task at all: BuildTasks subscribes every interface task (monitors
+                # included) to ITS interface through the watcher's real notify path
+                {"pkg": "internal/corerad", "test": "TestVerifC20", "newgo": True, "timeout": 600, "corr_module": "Corr.C20", "env": {"VERIF_C20_SECTION": "build"}},
         # the real dialNDP / checkInterface / lookupInterface on a veth pair (root only; tagged unavailable otherwise)
         {"pkg": "internal/system", "test": "TestVerifRealOS", "newgo": True, "timeout": 300},
     ],
